@@ -974,6 +974,37 @@ func refScan(n *tyNode, in []byte, pos int, maxLen *int64) (int, bool) {
 	panic("refScan: unknown type " + n.kind)
 }
 
+
+// leading length prefix of a type, if the first thing it reads is one: the bytes that must come before
+// it (Option's Boolean) and the prefix kind
+func leadPrefix(n *tyNode) ([]byte, string, bool) {
+	switch n.kind {
+	case "str", "ba", "bits":
+		return nil, "vi", true
+	case "ary":
+		return nil, n.lk, true
+	case "option":
+		h, k, ok := leadPrefix(n.kids[0])
+		return append([]byte{1}, h...), k, ok
+	case "opt1":
+		return leadPrefix(n.kids[0])
+	case "tup":
+		if len(n.kids) > 0 {
+			return leadPrefix(n.kids[0])
+		}
+	}
+	return nil, "", false
+}
+
+var negPrefixes = map[string][][]byte{
+	"vi":  {{0xff, 0xff, 0xff, 0xff, 0x0f}, {0x80, 0x80, 0x80, 0x80, 0x08}, {0xfe, 0xff, 0xff, 0xff, 0x0f}},
+	"vl":  {{0xff, 0xff, 0xff, 0xff, 0xff, 0xff, 0xff, 0xff, 0xff, 0x01}, {0x80, 0x80, 0x80, 0x80, 0x80, 0x80, 0x80, 0x80, 0x80, 0x01}},
+	"i8":  {{0xff}, {0x80}},
+	"i16": {{0xff, 0xff}, {0x80, 0x00}},
+	"i32": {{0xff, 0xff, 0xff, 0xff}, {0x80, 0, 0, 0}},
+	"i64": {{0xff, 0xff, 0xff, 0xff, 0xff, 0xff, 0xff, 0xff}, {0x80, 0, 0, 0, 0, 0, 0, 0}},
+}
+
 // ---------------------------------------------------------------- cases
 
 func outcome(p string, err error) string {
@@ -1427,6 +1458,21 @@ func main() {
 		}
 		for i := 0; i < o.N(10, 10); i++ {
 			hostile(o, "mal.random", t, t.Gen(r, -1), r.Bytes(r.Intn(12)))
+		}
+	}
+	// 5b. negative length prefixes of every kind, at the head of every type that starts with one,
+	// into every destination class: an error, never a panic (and never a success)
+	for _, t := range all {
+		pos0 := 0
+		head, kind, ok := leadPrefix(parseTy(t.Name(), &pos0))
+		if !ok {
+			continue
+		}
+		for _, pre := range negPrefixes[kind] {
+			for _, class := range []string{"nil", "exact-spare", "longer-spare"} {
+				in := append(append(append([]byte{}, head...), pre...), r.Bytes(r.Pick(0, 3, 9))...)
+				hostile(o, "mal.neglen", t, genDest(r, t, t.Gen(r, -1), class), in)
+			}
 		}
 	}
 	// 6. random volume
